@@ -33,7 +33,13 @@ fn scratch_root() -> String {
 }
 
 fn main() {
-    let args: Vec<String> = std::env::args().collect();
+    // an argument "@file:<path>" stands for the content of that file (replay arguments beyond the kernel's per-argument limit)
+    let args: Vec<String> = std::env::args()
+        .map(|a| match a.strip_prefix("@file:") {
+            Some(p) => std::fs::read_to_string(p).expect("argument file"),
+            None => a,
+        })
+        .collect();
     if args.len() < 3 {
         usage();
     }
@@ -112,7 +118,7 @@ fn real_main(args: &[String], scratch: &str) -> i32 {
             };
             match args[2].as_str() {
                 "C01" | "C02code" | "C02stream" | "C09" | "C18" => iters::replay(&mut ctx, &args[2..]),
-                "C03" | "C03seq" | "C04" | "C04file" | "C04long" | "C11reuse" | "C12reuse" | "C11" | "C11long" | "C11file" | "C12" => vecs::replay(&mut ctx, &args[2..]),
+                "C03" | "C03seq" | "C04" | "C04file" | "C04long" | "C04huge" | "C12huge" | "C11reuse" | "C12reuse" | "C11" | "C11long" | "C11file" | "C12" => vecs::replay(&mut ctx, &args[2..]),
                 "C05sched" | "C14sched" | "C14lattice" | "C07sched" => conc::replay(&mut ctx, &args[2..]),
                 "C10s2m" | "C10m2s" | "C10s2m-free" | "C10m2s-free" | "C10big" => conc::replay_min(&mut ctx, &args[2..]),
                 "C05cfg" => conc::replay_c05cfg(&mut ctx, &args[2..]),
